@@ -26,7 +26,9 @@ type c03run struct {
 	mode  int
 	seed  uint64
 	go123 bool
-	only  map[string]interface{} // replay filter
+	only  map[string]interface{} // replay filter (on what is reported: the whole history is always re-run)
+	thor  bool
+	rseed uint64
 	fails []c03fail
 	cases int
 	w     *iw
@@ -34,18 +36,20 @@ type c03run struct {
 }
 
 func (r *c03run) fail(tag, kind, seq string, split int, format string, args ...interface{}) {
+	if r.only != nil && !(r.only["kind"] == kind && r.only["seq"] == fmt.Sprintf("%x", seq) && int(r.only["split"].(float64)) == split) {
+		return
+	}
 	msg := fmt.Sprintf("%s [map order %d]: ", r.term, r.mode) + fmt.Sprintf(format, args...)
 	r.fails = append(r.fails, c03fail{tag, msg, map[string]interface{}{
 		"term": r.term, "mapmode": r.mode, "mapseed": r.seed, "go123": r.go123, "kind": kind, "seq": fmt.Sprintf("%x", seq), "split": split,
+		"thorough": r.thor, "rngseed": r.rseed,
 	}})
 }
 
-func (r *c03run) want(kind, seq string, split int) bool {
-	if r.only == nil {
-		return true
-	}
-	return r.only["kind"] == kind && r.only["seq"] == fmt.Sprintf("%x", seq) && int(r.only["split"].(float64)) == split
-}
+// want: a decode may depend on what the screen decoded before it (the key
+// table and the escape state persist), so a replay re-runs the whole history
+// of its terminal and filters only what is reported.
+func (r *c03run) want(kind, seq string, split int) bool { return true }
 
 // decode feeds seq (cut at split if > 0) with the clock held, then lets the
 // timeout pass, and returns the events.
@@ -92,7 +96,7 @@ func (r *c03run) run() error {
 		}
 	}()
 	seqs, gen := keySeqs(w.Ti)
-	thorough := hx.Thorough()
+	thorough := r.thor
 
 	// (1) prefix-freeness: of the description's own sequences, and of the
 	// table the screen built from them.
@@ -246,6 +250,42 @@ func (r *c03run) run() error {
 		check1("alt", nil, "\x1b"+string([]byte{c}), 0, func(got string) bool { return got == runeDesc(rune(c), tcell.ModAlt) }, "ESC + rune")
 	}
 
+	// (6b) the same keys without the prefix again: an Alt-prefixed decode
+	// must leave nothing behind.
+	for i, ks := range seqs {
+		if !thorough && i%4 != int(r.seed%4) {
+			continue
+		}
+		check1("field-after-alt", ks, ks.Seq, 0, ks.accepts, "key (after its Alt-prefixed form) "+strings.Join(ks.Fields, "/"))
+	}
+	for b := 1; b < 32; b++ {
+		if b == 27 {
+			continue
+		}
+		s := string([]byte{byte(b)})
+		check1("alt", nil, "\x1b"+s, 0, func(got string) bool {
+			if got == withAlt(ctrlDesc(byte(b))) {
+				return true
+			}
+			if d := defined["\x1b"+s]; d != nil && d.accepts(got) {
+				return true
+			}
+			if ks := singles[s]; ks != nil {
+				return altOf(ks)(got)
+			}
+			return false
+		}, "ESC + control byte")
+		check1("ctrl-after-alt", nil, s, 0, func(got string) bool {
+			if got == ctrlDesc(byte(b)) {
+				return true
+			}
+			if ks := singles[s]; ks != nil {
+				return ks.accepts(got)
+			}
+			return false
+		}, "control byte (after its Alt-prefixed form)")
+	}
+
 	// (7) concatenations decode to the concatenation.
 	if len(seqs) > 1 {
 		n := 40
@@ -327,10 +367,13 @@ func TestC03(t *testing.T) {
 				break
 			}
 			hx.Arm("C03 " + name)
-			r := &c03run{term: name, mode: m.mode, seed: m.seed, go123: mi%2 == 0, only: only, rng: hx.NewRng(seed*1000 + uint64(idx))}
+			r := &c03run{term: name, mode: m.mode, seed: m.seed, go123: mi%2 == 0, only: only, thor: hx.Thorough(), rseed: seed*1000 + uint64(idx)}
 			if only != nil {
 				r.go123 = only["go123"].(bool)
+				r.thor = only["thorough"].(bool)
+				r.rseed = uint64(only["rngseed"].(float64))
 			}
+			r.rng = hx.NewRng(r.rseed)
 			if err := r.run(); err != nil {
 				hx.Disarm()
 				t.Fatalf("HARNESS: %s: %v", name, err)
